@@ -153,13 +153,15 @@ def nudge(x, k):
 
 
 def perturb(rng, obj):
-    """the same primitive with every float moved by -2..2 ulps"""
+    """the same primitive with every float moved by -2..2 units of 2^-52 * max(|x|, 1e-3): about 2 ulps for ordinary
+    values, and a comparable ABSOLUTE amount for exact zeros / tiny values (lattice inputs are full of exact zeros and
+    exact symmetries, which an ulp of a denormal would not disturb)"""
     if isinstance(obj, dict):
         return {k: (perturb(rng, w) if k != "kind" else w) for k, w in obj.items()}
     if isinstance(obj, list):
         return [perturb(rng, w) for w in obj]
     if isinstance(obj, float):
-        return nudge(obj, rng.choice([-2, -1, 0, 1, 2]))
+        return obj + rng.choice([-2, -1, 0, 1, 2]) * 2.0 ** -52 * max(abs(obj), 1e-3)
     return obj
 
 
@@ -229,10 +231,11 @@ def correspondence(R, pid, cases, results, tier):
     unclear = 0
     real = []
     if mism:
-        K = 6
         pex, owner = [], []
         for (i, mv, arm, df) in mism[:200]:
             c = cases[i]
+            # the circle root finder decides ties between (nearly) equidistant roots by 1e-16 noise: more samples there
+            K = 16 if "circle" in c["fn"] else 6
             for _ in range(K):
                 pc = dict(fn=c["fn"], A=perturb(R.rng, c["A"]), B=perturb(R.rng, c["B"]))
                 pex.append(model_expr(pc))
@@ -251,9 +254,38 @@ def correspondence(R, pid, cases, results, tier):
             unstable = any(a2 != arm or maxdiff(mv, v2) / L > CORR_TOL for v2, a2 in moved.get(i, []))
             if unstable:
                 unclear += 1
+                results[i]["_model_agrees"] = "unclear"      # the model's own result moves under a 2-ulp perturbation
             else:
                 real.append((i, mv, arm, df))
         real += mism[200:]
+    # (c) the IMPLEMENTATION may sit on the knife edge itself (e.g. `b1_squared > 0.0` at an exactly representable zero
+    #     that the model's summation order turns into 1e-33): re-run the implementation on inputs perturbed by ~2 ulp; if ITS
+    #     result moves by more than the tolerance the case is ill-conditioned and says nothing about the correspondence
+    if real:
+        sub = real[:40]
+        pcs, owner = [], []
+        for (i, mv, arm, df) in sub:
+            c = cases[i]
+            for _ in range(8):
+                pcs.append(dict(fn=c["fn"], A=perturb(R.rng, c["A"]), B=perturb(R.rng, c["B"]), stream="perturbed"))
+                owner.append(i)
+        rr = cm.run_impl(pid, "c10", dict(cases=[dict(fn=c["fn"], args=pl.case_args(c)) for c in pcs]), timeout=1800, tag="impl_pert")
+        moved = set()
+        if rr["status"] == "ok":
+            for i, c, r2 in zip(owner, pcs, rr["result"]["results"]):
+                if "exc" in r2:
+                    continue
+                L = pl.scale_L(cases[i]["A"], cases[i]["B"])
+                if maxdiff(impl_obs(c, r2), impl_obs(cases[i], results[i])) / L > CORR_TOL:
+                    moved.add(i)
+        keep = []
+        for t in real:
+            if t[0] in moved:
+                unclear += 1
+                results[t[0]]["_model_agrees"] = "unclear"
+            else:
+                keep.append(t)
+        real = keep
     R.cov["model_evaluations"] = len(idx)
     R.cov["model_vs_impl_tolerance"] = f"{CORR_TOL} * L on d and on every coordinate of every returned point"
     R.cov["model_vs_impl_worst_relative_diff"] = {k: float(f"{x:.3e}") for k, x in worst.items()}
